@@ -16,6 +16,7 @@ impl ZipFileData {
 }
 
 // C06 for enclosed_name as one statement: whatever it returns, joined onto any base, stays inside that base
+// @props: C06 C07 -- whatever enclosed_name returns, joined onto any base, stays inside it
 pub proof fn lemma_enclosed_name_contained(name: Seq<char>, base: Seq<int>, k: int)
     requires !name.contains('\0'), safe(name_components(name)), 0 <= k <= name_components(name).len()
     ensures resolve(base, name_components(name), k).subrange(0, base.len() as int) == base,
@@ -24,6 +25,7 @@ pub proof fn lemma_enclosed_name_contained(name: Seq<char>, base: Seq<int>, k: i
     lemma_safe_stays_inside(base, name_components(name), k);
 }
 // C06 for mangled_name as one statement: what it returns is made of ordinary components only and, joined onto any base, stays inside
+// @props: C06 -- whatever mangled_name returns, joined onto any base, stays inside it
 pub proof fn lemma_mangled_name_contained(name: Seq<char>, base: Seq<int>, k: int)
     requires 0 <= k <= sanitized_components(name).len()
     ensures resolve(base, sanitized_components(name), k).subrange(0, base.len() as int) == base,
